@@ -9,7 +9,7 @@ import traceback
 from . import facts as factsmod
 
 VERIF = factsmod.VERIF
-EVID = os.path.join(VERIF, "evidence")
+EVID = os.environ.get("FBR_EVID_DIR") or os.path.join(VERIF, "evidence")
 
 
 class Anchor(Exception):
@@ -37,11 +37,15 @@ class Ctx:
         self.extra = {}
         self.rules_run = []
         self.self_test = None
+        self.force_cfg = None        # thorough tier: run the same rules over another feature configuration
+        self.cfg_tag = ""
 
     # ------------------------------------------------------------ facts
     def facts(self, cfg, required=True):
         """Facts for a configuration. A configuration that no longer type-checks is a
         violation for rules that exist only there (required=True) and is skipped otherwise."""
+        if self.force_cfg:
+            cfg = self.force_cfg
         if cfg in self.configs and self.configs[cfg] is not None:
             return self.configs[cfg]
         try:
